@@ -77,6 +77,26 @@ AltGoal(g) ==
     ELSE IF g.g = "call" /\ g.t.a = <<>> THEN g.t.s          \* `q` for `q()`
     ELSE PrintGoal(g)
 
+(* ---------------- grouping parentheses ---------------- *)
+(* The documented way to write a goal tree that the precedence of `,` over `;` *)
+(* does not give: an operand which is itself a conjunction or a disjunction is  *)
+(* put in parentheses, to any depth.  (A conjunction as operand of a            *)
+(* disjunction needs none; with full = TRUE it gets them all the same.)         *)
+(* Display does not write parentheses, so these texts are parsed only: they     *)
+(* must give exactly this tree.                                                 *)
+RECURSIVE GroupGoal(_, _), JoinGroup(_, _, _, _)
+GroupOperand(g, parent, full) ==
+    IF g.g \in {"and", "or"} /\ (full \/ ~(parent = "or" /\ g.g = "and"))
+    THEN "(" \o GroupGoal(g, full) \o ")" ELSE GroupGoal(g, full)
+GroupGoal(g, full) ==
+    CASE g.g = "and" -> JoinGroup(g.gs, ", ", "and", full)
+      [] g.g = "or"  -> JoinGroup(g.gs, "; ", "or", full)
+      [] OTHER -> PrintGoal(g)
+JoinGroup(gs, sep, parent, full) ==
+    IF gs = <<>> THEN ""
+    ELSE IF Len(gs) = 1 THEN GroupOperand(gs[1], parent, full)
+    ELSE GroupOperand(Head(gs), parent, full) \o sep \o JoinGroup(Tail(gs), sep, parent, full)
+
 (* ---------------- placement contexts (C20) ---------------- *)
 (* [entry, text]: the parser entry point and the text in which the term text    *)
 (* tx is embedded; the harness knows where to find the sub-term in each         *)
